@@ -16,7 +16,7 @@ import math
 from fractions import Fraction
 
 from astdb import AnalysisBroken, walk, strip
-from interp import (Interp, Hooks, Obj, Cell, Ptr, Region, Thrown, Unsupported, Opaque, NULL, UNDEF, Cond, ITE, _Return)
+from interp import (DivisionByZero, Interp, Hooks, Obj, Cell, Ptr, Region, Thrown, Unsupported, Opaque, NULL, UNDEF, Cond, ITE, _Return)
 from kernels import GslMatrix, matrix_of, make_suv, complex_parts, gsl_complex
 from gslmodel import GslHooks, IndexViolation, cplx_parts
 from poly import Poly, CPoly, mat_mul, mat_dagger
@@ -583,7 +583,7 @@ def check_squaring(db, rep):
     unit = db.unit('MatrixExp')
     f = db.one('MatrixExp', ME + 'matrix_exponential', 2)
     n = 3
-    for s_total in range(0, 7):
+    for s_total in list(range(0, 7)) + [8, 11, 16, 21, 22, 32, 33, 64]:  # beyond 6: widths at which shifts and small integer types wrap
         class SqHooks(ExpHooks):
             def float_to_int(self, it, node, value):
                 return s_total
@@ -606,7 +606,12 @@ def check_squaring(db, rep):
         A.defined = True
         eA = hooks.new_matrix(n, n, 'eA')
         it = Interp(unit, hooks)
-        it.call(f, None, [eA.ptr, A.ptr])
+        try:
+            it.call(f, None, [eA.ptr, A.ptr])
+        except DivisionByZero as e:
+            rep.fail('G.pade.square', 's=%d/finite' % s_total, e.where or unit.loc(f), 'finite scale factors 2^-2s, 2^-4s, 2^-6s for every scaling exponent',
+                     'with scaling exponent s=%d a divisor is exactly zero (the factor is inf, the result NaN): %s' % (s_total, e), f['name'])
+            continue
         want = MP('R', {2 ** s_total: 1.0})
         if eA.mp is not None and eA.mp.close(want) and eA.defined:
             rep.ok('G.pade.square')
